@@ -14,7 +14,8 @@ LEVEL = "exploration"
 QUICK_SHARDS = 4
 RULE = (
     "Hypothesis (value tree, casing in {CAMEL, SNAKE}, path in {dict, json text, to_json/from_json}, form in "
-    "{classmethod, instance on a fresh message}) over the kitchen-sink corpus. Oracle: json.dumps(to_dict(m)) "
+    "{classmethod, instance on a fresh message}, generated-code variant in {default, typing.310}, UTC offset of the aware "
+    "datetimes put into Timestamp fields) over the kitchen-sink corpus. Oracle: json.dumps(to_dict(m)) "
     "succeeds; the reloaded message has the same public-observer snapshot, is == m and encodes to the same bytes. "
     "Non-trivial = contains >=1 of: 64-bit int, bytes, non-finite float, enum, Timestamp/Duration, wrapper, map with "
     "non-string key, map/repeated of messages, default-valued oneof/optional member, present-but-empty message."
@@ -51,15 +52,21 @@ def targets(ctx):
     import betterproto
 
     c = corpus()
+    c310 = corpus(opts=("typing.310",))  # the same corpus generated with PEP 604 / builtin-generic annotations
     schema = c.schema
-    adapter = BPAdapter(schema)
     CAS = {"camel": betterproto.Casing.CAMEL, "snake": betterproto.Casing.SNAKE}
+    adapters = {}
+
+    def adapter_for(tz):
+        if tz not in adapters:
+            adapters[tz] = BPAdapter(schema, tz_offset_min=tz)
+        return adapters[tz]
 
     @collecting
-    def clauses(out, name, tree, casing, path, form):
-        cls = c.bp(name)
+    def clauses(out, name, tree, casing, path, form, variant="default", tz=0):
+        cls = (c310 if variant == "typing.310" else c).bp(name)
         mi = schema.msg(f"ks.{name}")
-        m = guard("build", adapter.build, cls, mi, tree)
+        m = guard("build", adapter_for(tz).build, cls, mi, tree)
         b = guard("bytes", bytes, m)
         a = norm(schema, mi, guard("snapshot_m", snap_bp, schema, mi, m))
         if path == "to_json":
@@ -88,10 +95,10 @@ def targets(ctx):
         if b2 != b and "NaN" not in repr(a):
             out.append(("json_roundtrip_bytes", f"before={b.hex()[:200]} after={b2.hex()[:200]}"))
 
-    def fails_clause(casing, path, form, clause):
+    def fails_clause(casing, path, form, clause, variant="default", tz=0):
         def f(mi, tree):
             name = mi.full_name.split(".")[-1]
-            return any(cl == clause for cl, _ in clauses(name, tree, casing, path, form))
+            return any(cl == clause for cl, _ in clauses(name, tree, casing, path, form, variant, tz))
 
         return f
 
@@ -99,14 +106,15 @@ def targets(ctx):
         name, tree = case["msg"], case["tree"]
         casing, path, form = case.get("casing", "camel"), case.get("path", "json"), case.get("form", "class")
         mi = schema.msg(f"ks.{name}")
-        found = clauses(name, tree, casing, path, form)
+        variant, tz = case.get("variant", "default"), case.get("tz", 0)
+        found = clauses(name, tree, casing, path, form, variant, tz)
         fails = []
         for clause, detail in found:
             fails += cm.failures_for(schema, mi, tree, clause,
                                      f"msg={name} casing={casing} path={path} form={form} tree={tree!r} :: {detail}",
-                                     fails_clause(casing, path, form, clause), fmt="{clause}|{where}|" + path)
+                                     fails_clause(casing, path, form, clause, variant, tz), fmt="{clause}|{where}|" + path + ("|typing.310" if variant != "default" else ""))
         return Eval(fails, nontrivial=json_nontrivial(schema, mi, tree),
-                    labels=cm.labels_for(schema, mi, tree) + [f"casing:{casing}", f"path:{path}", f"form:{form}"])
+                    labels=cm.labels_for(schema, mi, tree) + [f"casing:{casing}", f"path:{path}", f"form:{form}", f"variant:{variant}", f"tz:{tz}"])
 
     base = cm.msg_tree_strategy(c)
 
@@ -116,6 +124,8 @@ def targets(ctx):
         case["casing"] = draw(st.sampled_from(["camel", "snake"]))
         case["path"] = draw(st.sampled_from(["dict", "json", "to_json"]))
         case["form"] = draw(st.sampled_from(["class", "instance"]))
+        case["variant"] = draw(st.sampled_from(["default", "default", "typing.310"]))
+        case["tz"] = draw(st.sampled_from([0, 0, 330, -480, 60, 840]))
         return case
 
     return [Target("corpus_values_json", ev, strategy=strat(), quick=700, thorough=8000, time_quick=70)]
